@@ -29,6 +29,8 @@ def run(ctx, rep):
     rg = rep.rule("groups", "tick group ⊆ \\d+; unpack arity", floor=6)
     re_ = rep.rule("effective", "Eff_k ∩ U = Spec_k under first-match-wins in the order at the dispatch site", floor=3)
     c, pf, order, idx, pcall = kinds_of(ctx, "global")
+    if pf is None:
+        pf = c.find_method("from_chart_lines") or c
     impls = {}
     if order is None:
         fail(re_, ctx, c, c.node, "cannot read the kind order at the global-events dispatch site")
